@@ -475,7 +475,8 @@ Definition arg_doc (a : arg) : doc := match a with AAsg x => [x] | ACfg d => d e
 
 Lemma argv_rep argv : forall t st,
   rep t st -> forallb (wf_arg p) argv = true ->
-  exists t', argv_fold p t argv = Ok t' /             rep t' (fold_left apply_assignment (concat (map arg_doc argv)) st).
+  exists t', argv_fold p t argv = Ok t' /\
+    rep t' (fold_left apply_assignment (concat (map arg_doc argv)) st).
 Proof.
   induction argv as [|a argv IH]; intros t st R W; simpl.
   - exists t. auto.
@@ -541,11 +542,13 @@ Qed.
 
 Theorem precedence_lemma c :
   wf_call c = true -> envcfg_append c = false ->
-  exists t, pipeline c = Ok t /            rep (c_parser c) t (fold_sources c).
+  exists t, pipeline c = Ok t /\
+    rep (c_parser c) t (fold_sources c).
 Proof.
   intros W G. pose proof (defaults_and_environ_rep c W G) as R.
   assert (wf_parser (c_parser c) = true /\ wf_entry (c_parser c) (c_entry c) = true) as [WF We].
-  { unfold wf_call in W. repeat (apply andb_true_iff in W; destruct W as [W ?]). auto. }
+  { unfold wf_call in W. apply andb_true_iff in W. destruct W as [W We']. split; [|exact We'].
+    do 3 (apply andb_true_iff in W; destruct W as [W _]). exact W. }
   unfold fold_sources, sources_in_documented_order. rewrite app_assoc, concat_app, fold_left_app.
   unfold pipeline, given. destruct (c_entry c) as [argv| |d|d]; simpl in We.
   - destruct (argv_rep _ WF argv _ _ R We) as (t & E & Rt). exists t. split; auto.
